@@ -245,6 +245,9 @@ func (c *nxCluster) check() string {
 		binary.BigEndian.PutUint64(cmd, op.val)
 		n := 0
 		for _, h := range c.hosts {
+			if h.joiner {
+				continue // only the voting members count
+			}
 			ss, _ := h.db.GetSnapshot(nxShard, h.id)
 			if ss.Index >= op.index {
 				n++
@@ -254,8 +257,8 @@ func (c *nxCluster) check() string {
 				n++
 			}
 		}
-		if n < len(c.hosts)/2+1 {
-			c.fail("C04: write %d was reported Completed but its entry (index %d) is durable on only %d of %d replicas", op.val, op.index, n, len(c.hosts))
+		if n < c.cfg.N/2+1 {
+			c.fail("C04: write %d was reported Completed but its entry (index %d) is durable on only %d of %d voting replicas", op.val, op.index, n, c.cfg.N)
 		}
 	}
 	// C12: every accepted request gets a terminal result when the shard stops,
